@@ -179,6 +179,7 @@ func (h *Hub) CancelPairingWithSKI(ski string) {
 			existingC.CloseConnection(true, 4500, "User close")
 		}
 	}
+	h.verifPoint("cancel-pairing-after-lookup")
 
 	service := h.ServiceForSKI(ski)
 	service.ConnectionStateDetail().SetState(api.ConnectionStateNone)
